@@ -696,6 +696,16 @@ func (a *Authenticator) handleSessionResumption(ctx context.Context, sessionID s
 			}
 		}
 	}
+	if ok && (entry.KeyInfo() == nil || len(entry.KeyInfo().Data) == 0) && entry.Policy() != nil {
+		// An authenticated session without a key cannot prove anything about the
+		// requester: resuming it would grant the cached identity to whoever knows (or
+		// guesses) the id, on a plaintext connection. (An unauthenticated plaintext
+		// session carries no identity and stays resumable.)
+		if authed, _ := entry.Policy().EvaluateAttrBool("Authenticated"); authed {
+			slog.Info(fmt.Sprintf("🔐 SERVER: Session %s is authenticated but has no key and cannot be resumed", redactSessionID(sessionID)), "destination", "cedar")
+			ok = false
+		}
+	}
 	if !ok {
 		slog.Info(fmt.Sprintf("🔐 SERVER: Session %s not found or expired", redactSessionID(sessionID)), "destination", "cedar")
 
